@@ -450,6 +450,8 @@ def norm_arith(t):
         if op in COMMUTATIVE and repr(b) < repr(a):
             return ("bin", op, b, a, ty)
         return t
+    if k == "date" and len(t) == 3 and isinstance(t[1], tuple) and is_c(t[1]) and isinstance(t[1][1], int):
+        return ("date", None, t[2] + t[1][1])          # a constant day count is part of the day number
     if k == "cast" and len(t) == 4:
         a, frm, to = t[1], t[2], t[3]
         if _uwiden(frm, to) and isinstance(a, tuple) and a:
@@ -1335,6 +1337,27 @@ class Evaluator:
                 # k+1 explicit next() calls
                 self._mref_set(env, args[0], ("advanced", base, pos + 1))
                 return ("call", "core::iter::traits::iterator::Iterator::nth", (base, C(pos, "usize")))
+        if name in ("core::mem::take", "core::mem::replace") and args and args[0][0] == "mref":
+            cur = self._mref_get(env, args[0])
+            if name.endswith("replace"):
+                self._mref_set(env, args[0], args[1])
+                return cur
+            tys = [x["d"]["s"] for x in t.get("targs", [])]
+            ty = tys[0] if tys else ""
+            dflt = None
+            if ty.startswith("alloc::vec::Vec<"):
+                dflt = ("call", "alloc::vec::Vec::<T>::new", ())
+            elif ty.startswith("core::option::Option<"):
+                dflt = NONE
+            elif ty == "alloc::string::String":
+                dflt = ("call", "alloc::string::String::new", ())
+            elif ty in INT_TYS:
+                dflt = C(0, ty)
+            elif ty == "bool":
+                dflt = FALSE
+            if dflt is not None:
+                self._mref_set(env, args[0], dflt)
+                return cur
         if name == RANGE_NEXT and args and args[0][0] == "mref" and not args[0][2]:
             cur = env.get(args[0][1], ("uninit",))
             if cur[0] == "adt" and cur[1] == "core::ops::range::Range":
